@@ -433,6 +433,7 @@ class Ctx:
         self.concrete_report = []        # concrete mode: list of (name, viol, tol)
         self.trace = []
         self.scratch = {}
+        self.loop_specs = {}
         self.div_rules = {}
         self.div_defs = {}               # quotient var -> (numerator Poly, denominator Poly)
         self.post_rules = {}             # rewrite rules applied only to cleared goals (e.g. T^2 -> Gram determinant)
@@ -505,13 +506,15 @@ class Ctx:
         if not z3.is_true(g):
             self.facts.append(("proved:" + name, g))
 
-    def canary(self, name, cond):
-        """deliberately false claim: must NOT be provable (guards against vacuous hypotheses / unsound engine)"""
+    def canary(self, name, cond, strict=False):
+        """deliberately false claim: must NOT be provable (guards against vacuous hypotheses / unsound engine).
+        strict=True: a proof is fatal even when the path's reachability could not be established by a model (used where
+        the hypotheses are quantified and the solver cannot produce models)."""
         if self.mode == "concrete":
             return
         g = bz(cond) if not isinstance(cond, (bool, np.bool_)) else z3.BoolVal(bool(cond))
         self.obligations.append(Obligation("canary:" + name, "canary", list(self.facts), g, False,
-                                           dict(decisions=list(self.decisions), tol=0.0)))
+                                           dict(decisions=list(self.decisions), tol=0.0, canary="strict" if strict else "")))
 
     def cover(self, name):
         """reachability: the hypotheses collected so far must be satisfiable"""
